@@ -40,7 +40,7 @@ Did(lines) == [flags |-> {lines[i].f : i \in {j \in 1..Len(lines) : lines[j].k =
                exp   |-> \E i \in 1..Len(lines) : lines[i].k = "expect",
                err   |-> \E i \in 1..Len(lines) : lines[i].k = "err"]
 GView == <<opts, Len(done), Len(cur), st.d, [st.c EXCEPT !.code = <<>>], carry, globErr,
-           IF HistView THEN [i \in 1..Len(done) |-> Did(done[i])] ELSE <<>>>>
+           IF HistView THEN <<[i \in 1..Len(done) |-> Did(done[i])], Did(cur)>> ELSE <<>>>>
 
 Run(fs) == [o |-> opts, files |-> fs, exp |-> Outcome(opts, fs)]
 TCover == (cur' # cur /\ cur' # <<>>) => PrintT(<<"TR", ToJson(Run(Append(done', cur')))>>)
